@@ -1,11 +1,12 @@
 #!/usr/bin/env python3
-"""tools/c09_switch.py tc|dups snapshot|repaired [commit]
+"""tools/c09_switch.py tc|dups|cache snapshot|repaired [commit]
 
-Keeps the two hand-maintained places of the C09 check consistent with the tree in /repo, separately for the two
+Keeps the two hand-maintained places of the C09 check consistent with the tree in /repo, separately for the three
 proposed repairs:
 
   tc    fixes/C09-tc-placeholder-start-point.diff  (NaN placeholder axis of the time-course and protocol-time-course workers)
   dups  fixes/C09-duplicate-labels-refused.diff    (dict-keyed entry points refuse tables with equal index labels)
+  cache fixes/C09-cached-steady-state-unique-index.diff (steady-state scans refuse tables with equal index labels when a result cache is given)
 
   snapshot   the diff is NOT applied: coq/scan/ExpectedFacts.v expects the old form (TcRequested + PtcRequested /
              DupCollapse) and the defect is the recorded finding (tc-placeholder-misses-t0 / duplicate-index-labels);
@@ -19,7 +20,7 @@ from pathlib import Path
 V = Path(__file__).resolve().parent.parent
 which = sys.argv[1] if len(sys.argv) > 1 else ""
 mode = sys.argv[2] if len(sys.argv) > 2 else ""
-if which not in ("tc", "dups") or mode not in ("snapshot", "repaired"):
+if which not in ("tc", "dups", "cache") or mode not in ("snapshot", "repaired"):
     sys.exit(__doc__)
 commit = sys.argv[3] if len(sys.argv) > 3 else "<commit-to-be-filled>"
 
@@ -72,6 +73,33 @@ ENTRIES = {
                  "with a ValueError naming the duplicated labels -- fixes/C09-duplicate-labels-refused.diff (demo: findings/c09_duplicate_labels.py; "
                  "regression theorem C09_duplicate_labels_collapse_refuted; id duplicate-index-labels)",
         "lines": {"C09_dups_repaired": None},
+    },
+    "cache": {
+        "id": "cached-duplicate-labels",
+        "finding": {
+         "property": "C09",
+         "id": "cached-duplicate-labels",
+         "call_site": "src/mxlpy/scan.py steady_state / src/mxlpy/mc.py steady_state: parallelise(..., inputs=list(table.iterrows()), cache=cache) -> parallel.py _load_or_run: file = cache.tmp_dir / cache.name_fn(k) with k = the row's index label",
+         "guard": "steady-state scans (scan.steady_state, mc.steady_state) called WITH cache= on a table whose index has duplicate labels (e.g. two grids glued with pd.concat without ignore_index) -- the complement of `NoDup (map fst inputs)` in C09_cache_transparent_unique_labels / C09_cache_any_interleaving; without a cache, and for the dict-keyed scans (which refuse such tables), nothing is affected",
+         "witness": {
+          "kind": "cached-dups",
+          "entry": "scan.steady_state seq",
+          "labels": [
+           0,
+           1,
+           2,
+           0,
+           1
+          ]
+         },
+         "what_fails": "steady-state scans are positional and accept tables with duplicate index labels, but the result cache names its files after the row label: the second row under a label is answered with the first row's cached result (x' = k - x over k = 1..5 under labels 0,1,2,0,1 gives x = 1,2,3,1,2 instead of 1,2,3,4,5; sequentially always, in the pool depending on timing) -- right length, right index, wrong numbers (theorems C09_cache_first_row_with_label_wins, C09_cached_duplicate_labels_refuted; demo findings/c09_cached_duplicate_labels.py). Proposed repair fixes/C09-cached-steady-state-unique-index.diff (both entry points start with `if cache is not None: _require_unique_index(table)`: a visible refusal, as the dict-keyed scans give; suite-neutral): recorded until the lead applies it, then `tools/c09_switch.py cache repaired <commit>`."
+        },
+        "fixed": "scan.steady_state / mc.steady_state accepted a table with equal index labels together with a result cache, whose files are named "
+                 "after the row label: the second row under a label was answered with the first row's cached result (x' = k - x over k = 1..5 under "
+                 "labels 0,1,2,0,1 gave x = 1,2,3,1,2); with a cache such a table is now refused up front with the ValueError of the dict-keyed scans -- "
+                 "fixes/C09-cached-steady-state-unique-index.diff (demo: findings/c09_cached_duplicate_labels.py; regression theorems "
+                 "C09_cache_first_row_with_label_wins / C09_cached_duplicate_labels_refuted; id cached-duplicate-labels)",
+        "lines": {"C09_cache_repaired": None},
     },
 }
 E = ENTRIES[which]
